@@ -93,6 +93,9 @@ pub struct StreamCase {
     /// BufReader capacity and message buffer size; 0 = the reader's default constructor
     pub buf_cap: usize,
     pub msg_max: usize,
+    /// `msg_max` is deliberately smaller than the largest declared total of the medium (a stream
+    /// that does not keep the promise the reader was configured with); the minimiser keeps it so
+    pub tight_max: bool,
     pub script: Vec<Dec>,
     /// executor choices (async scenario)
     pub exec: Vec<u8>,
@@ -121,6 +124,7 @@ impl StreamCase {
             "filter": self.filter.as_ref().map(|f| f.to_json()),
             "buf_cap": self.buf_cap,
             "msg_max": self.msg_max,
+            "tight_max": self.tight_max,
             "script": script_to_json(&self.script),
             "exec": self.exec,
             "tasks": self.tasks.iter().map(|(m, s)| json!({"medium": bytes_to_json(m), "script": script_to_json(s)})).collect::<Vec<_>>(),
@@ -139,6 +143,7 @@ impl StreamCase {
             filter: FilterSpec::from_json(&v["filter"]),
             buf_cap: v["buf_cap"].as_u64().unwrap_or(0) as usize,
             msg_max: v["msg_max"].as_u64().unwrap_or(0) as usize,
+            tight_max: v["tight_max"].as_bool().unwrap_or(false),
             script: script_from_json(&v["script"]),
             exec: v["exec"].as_array().map(|a| a.iter().map(|x| x.as_u64().unwrap_or(0) as u8).collect()).unwrap_or_default(),
             tasks: v["tasks"]
